@@ -33,6 +33,7 @@ type Job struct {
 	TimeoutS     int               `json:"timeout_s"`
 	MapOrder     bool              `json:"map_order"`
 	GoInline     bool              `json:"go_inline"`
+	CoroutineFuncs []string        `json:"coroutine_funcs"`
 	MaxViol      int               `json:"max_viol"`
 	NoCache      bool              `json:"no_cache"`
 	NSamples     int               `json:"nsamples"`
@@ -223,6 +224,7 @@ func (w *Worker) runItem(it workItem, q *queue) {
 	w.inMerge = 0
 	w.loopCnt = map[*ssa.BasicBlock]int{}
 	w.steps = 0
+	w.yieldCh = make(chan struct{})
 	w.depth = 0
 	w.viols = nil
 	w.clock = 1000
@@ -287,6 +289,7 @@ func (w *Worker) runItem(it workItem, q *queue) {
 	if end == "done" && !it.conc && w.modelOK {
 		sampleVec, sampleKinds = w.vectorFrom(w.model)
 	}
+	w.killCoroutines()
 	w.rollback(0)
 	solverT := w.S.Time - t0
 
